@@ -246,10 +246,11 @@ def taper_some(draw, objs, lam, prob=0.25):
                 continue
             o['taper'] = draw(st.integers(1, 3))
             o['tmin'] = r6(tmin)
-            if draw(st.booleans()):
-                tmax = min(lam / 10.0, max(L / o['n'] * draw(st.floats(1.1, 3.0)), tmin * 1.5))
-                if tmax >= L / o['n'] * 1.05:
-                    o['tmax'] = r6(tmax)
+            tmax = min(lam / 10.0, max(L / o['n'] * draw(st.floats(1.1, 3.0)), tmin * 1.5))
+            if not draw(st.integers(0, 3)):
+                tmax = lam / 10.0
+            if tmax >= L / o['n'] * 1.05:
+                o['tmax'] = r6(tmax * 0.999999)
             any_t = True
     return any_t
 
